@@ -6,21 +6,26 @@ Import ListNotations.
 Open Scope Z_scope.
 
 (* Every trace of observations that the model of add_processor /
-   remove_processor / get_processor / processors / process (with bisect.insort
-   and the relay of on_add / on_remove while dispatching is disabled) accepts
-   satisfies the property [holds] (C07Model.spec_step): after every operation
-   world.processors lists exactly the registered processors, strictly
+   remove_processor / get_processor / processors / process (with bisect.insort,
+   the relay of on_add / on_remove while dispatching is disabled, and
+   processor bodies that themselves add / remove / query processors during
+   the frame) accepts satisfies the property [holds] (C07Model.spec_istep):
+   after every operation - issued at top level or from inside a processor
+   body - world.processors lists exactly the registered processors, strictly
    increasing in (priority, time of adding), no two of one exact type;
-   process(dt) calls exactly that list, in that order, once each, with dt;
+   process(dt) calls, in the order world.processors had when the frame
+   started, exactly those of them that are registered when their turn comes,
+   once each, with dt - so a processor added during a frame first runs in the
+   next one and a removed or replaced one does not run after its on_remove;
    add_processor replaces the processor of the same exact type, which gets
-   on_remove (at once, or when dispatching is enabled again) and is not
-   registered any more - hence in no later list and no later frame - the
-   priority used is the explicit one whenever one is given (0 and negatives
+   on_remove (at once, or when dispatching is enabled again), the priority
+   used is the explicit one whenever one is given (0 and negatives
    included), the added processor's world is this world and it gets on_add;
    remove_processor / get_processor answer with the processor of exactly the
    type when there is one, else with a registered processor of a subtype,
    None only when there is none; no operation raises.
-   For all class hierarchies, processor sets, priorities and trace lengths. *)
+   For all class hierarchies, processor sets, priorities, body scripts and
+   trace lengths. *)
 Theorem C07_processors :
   forall c : C07_case, wf_b c = true -> known_b c = false ->
                        accepts c = true -> holds c.
@@ -59,34 +64,50 @@ Theorem C07_order_ok_meaning :
 Proof. exact order_ok_meaning. Qed.
 Print Assumptions C07_order_ok_meaning.
 
-(* ... and a frame that the specification accepts called exactly the
-   registered processors, once each, in that order, with the frame's dt *)
-Theorem C07_process_meaning :
-  forall H I ss dt ob ss', spec_step H I ss (OProcess dt) ob = Some ss' ->
-    ss' = ss /\ o_exn ob = 0 /\
-    exists L, o_log ob = map (fun s => ERun (s_pid s) dt) L /\
-              Permutation L (reg ss) /\ StronglySorted slt L.
-Proof. exact process_meaning. Qed.
-Print Assumptions C07_process_meaning.
+(* ... a frame that the specification accepts ran a subsequence of the
+   start-of-frame list, every body with the frame's dt (which ones: exactly
+   those registered at their turn, by the definition of spec_frame) ... *)
+Theorem C07_frame_meaning :
+  forall H I dt order ss bs ss', spec_frame H I dt order ss bs = Some ss' ->
+    subseq (map b_pid bs) order /\ Forall (fun b => b_dt b = dt) bs.
+Proof. exact frame_meaning. Qed.
+Print Assumptions C07_frame_meaning.
+
+(* ... and when the bodies leave the world alone, exactly that list *)
+Theorem C07_frame_plain_meaning :
+  forall H I dt order ss bs ss',
+    (forall p, In p order -> is_reg ss p = true) ->
+    Forall (fun b => b_acts b = []) bs ->
+    spec_frame H I dt order ss bs = Some ss' ->
+    ss' = ss /\ map b_pid bs = order /\ Forall (fun b => b_dt b = dt) bs.
+Proof. exact frame_plain_meaning. Qed.
+Print Assumptions C07_frame_plain_meaning.
 
 (* ---- non-vacuity and rejected behaviours -------------------------------- *)
 Definition ex_hier : hier := [(0, [0]); (1, [1; 0]); (2, [2; 1; 0])].
 Definition ex_insts : insts :=
   [(0, Build_inst 1 true true true); (1, Build_inst 1 false false false);
    (2, Build_inst 2 true false false); (3, Build_inst 0 false false false)].
+Definition ob (ret : option Z) (log : list ev) (ps : list Z) : obs := Build_obs 0 ret log ps true.
 Definition ex_ok : C07_case :=
   {| c_hier := ex_hier; c_insts := ex_insts; c_trace :=
-     [ (OAdd 0 (Some 0) 1, Build_obs 0 None [EAdd 0] [0] true);
-       (OAdd 2 None 0, Build_obs 0 None [] [0; 2] true);           (* tie: later one behind *)
-       (OAdd 3 (Some (-1)) 0, Build_obs 0 None [] [3; 0; 2] true);
-       (OProcess 4, Build_obs 0 None [ERun 3 4; ERun 0 4; ERun 2 4] [3; 0; 2] true);
-       (OEnable false, Build_obs 0 None [] [3; 0; 2] true);
-       (OAdd 1 (Some 0) 5, Build_obs 0 None [] [3; 2; 1] true);    (* replaces 0, on_remove owed *)
-       (ORemove 0, Build_obs 0 (Some 3) [] [2; 1] true);           (* exact type *)
-       (OEnable true, Build_obs 0 None [ERemove 0] [2; 1] true);
-       (OGet 1, Build_obs 0 (Some 1) [] [2; 1] true);
-       (ORemove 0, Build_obs 0 (Some 2) [] [1] true);              (* a subtype *)
-       (OProcess 0, Build_obs 0 None [ERun 1 0] [1] true) ] |}.
+     [ Step (OAdd 0 (Some 0) 1) (ob None [EAdd 0] [0]);
+       Step (OAdd 2 None 0) (ob None [] [0; 2]);                 (* tie: later one behind *)
+       Step (OAdd 3 (Some (-1)) 0) (ob None [] [3; 0; 2]);
+       (* a frame: 3 runs and replaces 0 by 1 (same type, priority -2) and removes type 2;
+          0 and 2 do not run any more, 1 was added during the frame and does not run in it *)
+       Frame 4 [ Build_body 3 4 [ (OAdd 1 (Some (-2)) 5, ob None [ERemove 0] [1; 3; 2]);
+                                  (ORemove 2, ob (Some 2) [] [1; 3]) ] ]
+             (ob None [] [1; 3]);
+       Frame 8 [ Build_body 1 8 []; Build_body 3 8 [ (OAdd 1 (Some (-2)) (-2), ob None [] [1; 3]) ] ]
+             (ob None [] [1; 3]);           (* 3 re-adds 1 in every frame *)
+       Step (OEnable false) (ob None [] [1; 3]);
+       Step (OAdd 0 (Some 0) 5) (ob None [] [3; 0]);             (* replaces 1; 0's on_add owed *)
+       Step (ORemove 0) (ob (Some 3) [] [0]);                    (* exact type *)
+       Step (OEnable true) (ob None [EAdd 0] [0]);
+       Step (OGet 1) (ob (Some 0) [] [0]);
+       Step (ORemove 0) (ob (Some 0) [ERemove 0] []);            (* a subtype *)
+       Frame 0 [] (ob None [] []) ] |}.
 Example C07_nonvacuous :
   wf_b ex_ok = true /\ known_b ex_ok = false /\ accepts ex_ok = true /\ holds_b ex_ok = true.
 Proof. vm_compute. auto. Qed.
@@ -95,29 +116,51 @@ Definition mk (tr : trace) : C07_case :=
   {| c_hier := ex_hier; c_insts := ex_insts; c_trace := tr |}.
 (* insort_left: the later of two equal priorities in front *)
 Example C07_tie_order_rejected :
-  holds_b (mk [ (OAdd 0 (Some 0) 1, Build_obs 0 None [EAdd 0] [0] true);
-                (OAdd 2 None 0, Build_obs 0 None [] [2; 0] true) ]) = false.
+  holds_b (mk [ Step (OAdd 0 (Some 0) 1) (ob None [EAdd 0] [0]);
+                Step (OAdd 2 None 0) (ob None [] [2; 0]) ]) = false.
 Proof. vm_compute. reflexivity. Qed.
 (* "if priority:" - an explicit 0 ignored in favour of p.priority = 1 *)
 Example C07_explicit_zero_rejected :
-  holds_b (mk [ (OAdd 0 (Some 0) 1, Build_obs 0 None [EAdd 0] [0] true);
-                (OAdd 3 (Some 0) 0, Build_obs 0 None [] [3; 0] true) ]) = false.
+  holds_b (mk [ Step (OAdd 0 (Some 0) 1) (ob None [EAdd 0] [0]);
+                Step (OAdd 3 (Some 0) 0) (ob None [] [3; 0]) ]) = false.
 Proof. vm_compute. reflexivity. Qed.
 (* the replaced instance still in the execution list *)
 Example C07_lingering_rejected :
-  holds_b (mk [ (OAdd 1 None 0, Build_obs 0 None [] [1] true);
-                (OAdd 0 None 0, Build_obs 0 None [EAdd 0] [1; 0] true) ]) = false.
+  holds_b (mk [ Step (OAdd 1 None 0) (ob None [] [1]);
+                Step (OAdd 0 None 0) (ob None [EAdd 0] [1; 0]) ]) = false.
 Proof. vm_compute. reflexivity. Qed.
 (* a different dt *)
 Example C07_other_dt_rejected :
-  holds_b (mk [ (OAdd 1 None 0, Build_obs 0 None [] [1] true);
-                (OProcess 4, Build_obs 0 None [ERun 1 8] [1] true) ]) = false.
+  holds_b (mk [ Step (OAdd 1 None 0) (ob None [] [1]);
+                Frame 4 [Build_body 1 8 []] (ob None [] [1]) ]) = false.
 Proof. vm_compute. reflexivity. Qed.
 (* KeyError when dispatching is enabled again (handler without on_remove
    removed while disabled) *)
 Example C07_enable_raises_rejected :
-  holds_b (mk [ (OAdd 2 None 0, Build_obs 0 None [] [2] true);
-                (OEnable false, Build_obs 0 None [] [2] true);
-                (ORemove 2, Build_obs 0 (Some 2) [] [] true);
-                (OEnable true, Build_obs 1 None [] [] true) ]) = false.
+  holds_b (mk [ Step (OAdd 2 None 0) (ob None [] [2]);
+                Step (OEnable false) (ob None [] [2]);
+                Step (ORemove 2) (ob (Some 2) [] []);
+                Step (OEnable true) (Build_obs 1 None [] [] true) ]) = false.
+Proof. vm_compute. reflexivity. Qed.
+(* process() iterating the live list: 3 adds 1 in front of itself and is called again *)
+Example C07_called_twice_rejected :
+  holds_b (mk [ Step (OAdd 3 None 0) (ob None [] [3]);
+                Frame 4 [ Build_body 3 4 [ (OAdd 1 (Some (-1)) 0, ob None [] [1; 3]) ];
+                          Build_body 3 4 [ (OAdd 1 (Some (-1)) (-1), ob None [] [1; 3]) ] ]
+                      (ob None [] [1; 3]) ]) = false.
+Proof. vm_compute. reflexivity. Qed.
+(* a processor removed by an earlier body of the frame still runs *)
+Example C07_runs_after_removal_rejected :
+  holds_b (mk [ Step (OAdd 3 (Some (-1)) 0) (ob None [] [3]);
+                Step (OAdd 1 None 0) (ob None [] [3; 1]);
+                Frame 4 [ Build_body 3 4 [ (ORemove 1, ob (Some 1) [] [3]) ]; Build_body 1 4 [] ]
+                      (ob None [] [3]) ]) = false.
+Proof. vm_compute. reflexivity. Qed.
+(* in-place deletion under a live iteration: the processor after the removed one is skipped *)
+Example C07_skipped_rejected :
+  holds_b (mk [ Step (OAdd 3 (Some (-1)) 0) (ob None [] [3]);
+                Step (OAdd 1 None 0) (ob None [] [3; 1]);
+                Step (OAdd 2 (Some 1) 0) (ob None [] [3; 1; 2]);
+                Frame 4 [ Build_body 3 4 []; Build_body 1 4 [ (ORemove 0, ob (Some 3) [] [1; 2]) ] ]
+                      (ob None [] [1; 2]) ]) = false.
 Proof. vm_compute. reflexivity. Qed.
